@@ -120,22 +120,28 @@ pub fn child(out: &mut dyn std::io::Write, group: &str, seed: u64, thorough: boo
         }
         "hash" => {
             let alg = parts[1];
-            let n = hashes::block_size(alg) / if alg.starts_with("Skein") { 1 } else { 2 };
-            let n = if alg.starts_with("Skein") { n } else { 0 };
+            let n = if alg.starts_with("Skein") { hashes::block_size(alg) } else { 0 };
+            let b = hashes::block_size(alg);
             for len in lens(thorough) {
                 let data = rng.bytes(len);
-                let reference = { let mut h = hashes::make_hash(alg, n); h.upd(&data); h.fin() };
-                for (place, align) in places(len, thorough) {
-                    g.refill();
-                    r.call("update", alg, place, len, align);
-                    let (off, s) = g.place(place, len, align);
-                    s.copy_from_slice(&data);
-                    let res = guarded(|| { let mut h = hashes::make_hash(alg, n); h.upd(s); h.fin() });
-                    let same_input = &s[..] == &data[..];
-                    let can = g.canary_ok(off, len) && same_input;
-                    match res {
-                        Ok(o) => r.ret(&o, &reference, can, "ok"),
-                        Err(_) => r.ret(&[], &reference, can, "panic"),
+                // the guarded slice is fed after a prefix of `pre` bytes from an ordinary buffer (0 = the slice is the whole message):
+                // partial-block bookkeeping must not make the second call look outside its own slice
+                let pres: Vec<usize> = if thorough { vec![0, 1, 13, b / 2, b - 1] } else { vec![0, [1usize, 13, b - 1][len % 3]] };
+                for pre in pres {
+                    let prefix = rng.bytes(pre);
+                    let reference = { let mut h = hashes::make_hash(alg, n); h.upd(&prefix); h.upd(&data); h.fin() };
+                    for (place, align) in places(len, thorough && pre == 0) {
+                        g.refill();
+                        r.call(if pre == 0 { "update" } else { "update_after_prefix" }, alg, place, len, align + 1000 * pre);
+                        let (off, s) = g.place(place, len, align);
+                        s.copy_from_slice(&data);
+                        let res = guarded(|| { let mut h = hashes::make_hash(alg, n); h.upd(&prefix); h.upd(s); h.fin() });
+                        let same_input = &s[..] == &data[..];
+                        let can = g.canary_ok(off, len) && same_input;
+                        match res {
+                            Ok(o) => r.ret(&o, &reference, can, "ok"),
+                            Err(_) => r.ret(&[], &reference, can, "panic"),
+                        }
                     }
                 }
             }
